@@ -355,7 +355,10 @@ def gen_probes(rng, thorough=False):
     P.append({"kind": "plain", "case": c, "label": "rate-1-kappa-1-equal-frequencies"})
     c = G.gen_case(rng, 4, subst="GTR", site="invariant", rooting="unrooted", nsites=3)
     t = G.parse_newick(c["newick"])
-    for x in list(t.postorder())[:2]:
+    # zero length on INTERNAL branches only: a zero-length branch above a tip makes data with different states on the two
+    # sides impossible (likelihood exactly 0; the implementation then returns NaN instead of -inf through the rescaling
+    # path — C03's subject, reported to the lead, not demanded here)
+    for x in [y for y in t.postorder() if not y.is_leaf() and y is not t][:2]:
         x.length = 0.0
     c["newick"] = G.newick(t)
     P.append({"kind": "plain", "case": c, "label": "zero-length-branches"})
